@@ -47,10 +47,12 @@ func TunableClusteringScaleFree(dst graph.UndirectedBuilder, n, m int, p float64
 	// Initial condition.
 	wt := make([]float64, n)
 	id := make([]int64, n)
+	idxOf := make(map[int64]int, n)
 	for u := 0; u < m; u++ {
 		un := dst.NewNode()
 		dst.AddNode(un)
 		id[u] = un.ID()
+		idxOf[id[u]] = u
 		// We need to give equal probability for
 		// adding the first generation of edges.
 		wt[u] = 1
@@ -67,6 +69,7 @@ func TunableClusteringScaleFree(dst graph.UndirectedBuilder, n, m int, p float64
 		vn := dst.NewNode()
 		dst.AddNode(vn)
 		id[v] = vn.ID()
+		idxOf[id[v]] = v
 		var u int
 	pa:
 		for i := 0; i < m; i++ {
@@ -82,7 +85,7 @@ func TunableClusteringScaleFree(dst graph.UndirectedBuilder, n, m int, p float64
 					}
 
 					dst.SetEdge(dst.NewEdge(w, vn))
-					wt[wid]++
+					wt[idxOf[wid]]++
 					wt[v]++
 					continue pa
 				}
